@@ -26,6 +26,25 @@ def xkey : Codec XKey :=
     (fun p => (⟨p.1, p.2.1, p.2.2.1, p.2.2.2.1, p.2.2.2.2.1, p.2.2.2.2.2⟩ : XKey))
     (fun k => (k.version, k.depth, k.parentFp, k.index, k.chainCode, k.key))).guardLen XKEY_LENGTH .badLength
 
+/-- BIP340 signature (`ecc/ssa.py: Sig.serialize / parse`): 64 bytes read whole, r ‖ s big-endian -/
+def ssaSig : Codec (Nat × Nat) := (pair (uintBE 32) (uintBE 32)).guardLen 64 .badLength
+
+/-- compact recoverable signature (`ecc/bms.py: Sig.serialize / parse`): 65 bytes, rf ‖ r ‖ s -/
+def bmsSig : Codec (Nat × Nat × Nat) :=
+  (pair (uintBE 1) (pair (uintBE 32) (uintBE 32))).guardLen 65 .badLength
+
+/-- key origin with exactly `n` path elements: fingerprint, then little-endian 4-byte indexes -/
+def keyOriginN (n : Nat) : Codec (Bytes × List Nat) := pair (bytesN 4) (listN (uintLE 4) n)
+
+/-- `BIP32KeyOrigin.parse` (octets only: the path is whatever follows the fingerprint, and must be a
+    whole number of 4-byte indexes) / `serialize` -/
+def keyOriginParseAll (b : Bytes) : Except Err (Bytes × List Nat) :=
+  if b.length < 4 then .error .short
+  else if (b.length - 4) % 4 ≠ 0 then .error .invalid
+  else (keyOriginN ((b.length - 4) / 4)).parseAll b
+
+def keyOriginSer (k : Bytes × List Nat) : Bytes := (keyOriginN k.2.length).ser k
+
 def rXKey (k : XKey) : String :=
   s!"{toHex k.version}/{k.depth}/{toHex k.parentFp}/{k.index}/{toHex k.chainCode}/{toHex k.key}"
 
